@@ -71,6 +71,7 @@ func main() {
 	extractMapRanges(pkgs, genDir)
 	extractGuards(pkgs, genDir)
 	extractLifecycles(pkgs, genDir)
+	extractReadyOrder(repo, genDir)
 	sort.Slice(facts.Broken, func(i, j int) bool { return facts.Broken[i]["name"] < facts.Broken[j]["name"] })
 	b, _ := json.MarshalIndent(facts, "", " ")
 	if err := os.WriteFile(factsPath, b, 0o644); err != nil {
